@@ -664,6 +664,89 @@ def quantize_fold(V, dtype, shift, n, zptype):
         return cl
 
 
+def quantize_scale(V, dtype):
+    """optimise_quantize: the requantisation scale handed to quantise_scale is ifm_scale / ofm_scale formed in DOUBLE from the two
+    float32 scales of the model (TFLite reference: double effective_scale = (double)input_scale / (double)output_scale)"""
+    import ethosu.vela.tflite_graph_optimiser as go
+    from ethosu.vela.data_type import DataType
+    from ethosu.vela.operation import Op
+    import numpy as np
+    from symx.fp import SFloat
+
+    s_i = V.extra("float", "ifm_scale", "f32")
+    s_o = V.extra("float", "ofm_scale", "f32")
+    for s_ in (s_i, s_o):
+        V.assume(z3.And(z3.fpIsNormal(fp.F(s_)), z3.fpGEQ(fp.as_f64(s_) if isinstance(s_, SFloat) else z3.FPVal(float(s_), fp.F64), z3.FPVal(2.0 ** -20, fp.F64)),
+                        z3.fpLEQ(fp.as_f64(s_) if isinstance(s_, SFloat) else z3.FPVal(float(s_), fp.F64), z3.FPVal(16.0, fp.F64))))
+    dt = DataType.int8 if dtype == "int8" else DataType.int16
+    arr = np.array([1], dtype=np.int8 if dtype == "int8" else np.int16)
+    ifm = _Obj(dtype=dt, values=arr, ops=[_Obj(type=Op.Const)], quantization=_Obj(scale_f32=s_i, zero_point=np.int64(0)), consumer_list=[])
+    ofm = _Obj(dtype=dt, values=None, quantization=_Obj(scale_f32=s_o, zero_point=np.int64(0), quant_min=-128, quant_max=127))
+    op = _Obj(type=Op.Quantize, run_on_npu=True, get_ifm_ofm=lambda: (ifm, ofm), op_index=0, inputs=[])
+    seen = []
+
+    class _NP:
+        @staticmethod
+        def float64(x=0.0):
+            return SFloat(fp.as_f64(x), "f64") if isinstance(x, SFloat) else np.float64(x)
+
+        double = float64
+
+        def array(self, v, *a, **k):
+            return _Obj(shape=None)
+
+        def __getattr__(self, nme):
+            return getattr(np, nme)
+
+    saved = (go.quantise_scale, go.np)
+    go.quantise_scale = lambda x: (seen.append(x), (1 << 30, 31))[1]
+    if V.symbolic:
+        go.np = _NP()
+    else:
+        class _NP2(_NP):
+            float64 = staticmethod(np.float64)
+
+        go.np = _NP2()
+    try:
+        go.optimise_quantize(op, None, None)
+    finally:
+        go.quantise_scale, go.np = saved
+    if len(seen) != 1:
+        return [("quantise_scale called once", False)]
+    got = seen[0]
+    d_i = fp.as_f64(s_i) if isinstance(s_i, SFloat) else z3.FPVal(float(s_i), fp.F64)
+    d_o = fp.as_f64(s_o) if isinstance(s_o, SFloat) else z3.FPVal(float(s_o), fp.F64)
+    ref = z3.fpDiv(fp.RNE, d_i, d_o)
+    gotd = fp.as_f64(got) if isinstance(got, SFloat) else z3.FPVal(float(got), fp.F64)
+    is64 = (got.kind in ("f64", "py")) if isinstance(got, SFloat) else isinstance(got, (float, np.float64))
+    return [("the scale ratio is a double", bool(is64)), ("effective scale == (double)ifm_scale / (double)ofm_scale", gotd == ref)]
+
+
+def tanh_fn(V, which):
+    """convert_tanh_sigmoid_to_lut tabulates the real function: Tanh uses math.tanh itself (not a clamped approximation); the
+    function is observed at the call into convert_to_lut8 and compared on a grid that includes |x| >= 4"""
+    import math
+    import ethosu.vela.tflite_graph_optimiser as go
+    from ethosu.vela.operation import Op
+
+    cap = {}
+    saved = go.convert_to_lut8
+    go.convert_to_lut8 = lambda op_, fn, name: cap.setdefault("fn", fn)
+    try:
+        go.convert_tanh_sigmoid_to_lut(_Obj(type=Op.Tanh if which == "tanh" else Op.Sigmoid), None, None)
+    finally:
+        go.convert_to_lut8 = saved
+    fn = cap.get("fn")
+    if fn is None:
+        return [("convert_to_lut8 reached", False)]
+    xs = [i / 8.0 for i in range(-80, 81)]
+    if which == "tanh":
+        ok = all(fn(x) == math.tanh(x) for x in xs)
+        return [("the tabulated function is math.tanh on [-10, 10]", ok)]
+    ref = lambda x: 0.0 if x <= -8 else (1.0 if x >= 8 else 1 / (1 + math.exp(-x)))  # noqa
+    return [("the tabulated function is the (clamped at |x|>=8) logistic function", all(fn(x) == ref(x) for x in xs))]
+
+
 def _ref_sat16(x):
     return z3.If(x < _c(I16MIN), _c(I16MIN), z3.If(x > _c(I16MAX), _c(I16MAX), x))
 
@@ -770,7 +853,7 @@ CAPS = {"quick": {}, "thorough": {}}
 RLIMIT = 2_000_000_000  # the 32x32->64 multiplier equivalences need far more solver resource than the engine default
 
 FUNCS = {"kernel": kernel, "mbqm": mbqm, "exp_interval": exp_interval, "exp_neg": exp_neg, "exp_neg_struct": exp_neg_struct,
-         "lrelu_table": lrelu_table, "quantize_fold": quantize_fold, "hardswish_table": hardswish_table}
+         "lrelu_table": lrelu_table, "quantize_fold": quantize_fold, "hardswish_table": hardswish_table, "quantize_scale": quantize_scale, "tanh_fn": tanh_fn}
 
 
 def instances(tier, seed):
@@ -836,6 +919,10 @@ def instances(tier, seed):
                         for zpi in ((qmin + 125,) if quick else (qmin, qmin + 125, qmin + 255)):
                             out.append(dict(key="hardswish_table/%s/r%d_o%d/%s/zp%d/code%d" % (dtype, relu_shift, out_shift, zptype, zpi, code), fn="hardswish_table",
                                             params=dict(dtype=dtype, code=code, relu_shift=relu_shift, out_shift=out_shift, zptype=zptype, zp_in_value=zpi, abstract_mul=False), weight=30))
+    for dtype in ("int8", "int16"):
+        out.append(dict(key="quantize_scale/%s" % dtype, fn="quantize_scale", params=dict(dtype=dtype)))
+    for which in ("tanh", "sigmoid"):
+        out.append(dict(key="tanh_fn/%s" % which, fn="tanh_fn", params=dict(which=which)))
     for dtype in ("int8", "int16"):
         for shift in ((29, 31, 34) if quick else (26, 28, 29, 30, 31, 32, 34, 38)):
             for zptype in ("int64", "pyint"):
